@@ -62,6 +62,20 @@ Theorem C07_timeout_fires_single :
 Proof. exact timeout_fires_single. Qed.
 Print Assumptions C07_timeout_fires_single.
 
+(* asyncio, the nested (transport read) limit does not depend on the enclosing operation having a limit: with
+   timeout_ops = 0 a read that stalls inside the operation is ended by timeout_transport, counted from the start of
+   THAT read, with the read's message; transport closed unless NO_TERMINATE, process state as before.  (With
+   timeout_ops > 0, C07_timeout_fires gives min(timeout_transport from the read, timeout_ops) for all mechanisms.) *)
+Theorem C07_async_transport_limit_alone_fires :
+  forall c pre l post s,
+    c_To c = 0 -> inner_eff MAsync c = true -> all_ret pre = true -> is_stall l = true ->
+    each_lt (c_Ti c) pre = true -> topen s = true ->
+    let r := run_op MAsync c (pre ++ l :: post) s in
+    out r = Raised (ETimeout (c_mi c)) /\ now (rst r) = now s + dur pre + c_Ti c /\
+    topen (rst r) = c_nt c /\ restored MAsync s (rst r).
+Proof. exact asy_inner_alone_fires. Qed.
+Print Assumptions C07_async_transport_limit_alone_fires.
+
 (* the full statement (no extra hypotheses) is false of the code as it is *)
 Theorem C07_timeout_fires_full_refuted : ~ timeout_fires_full.
 Proof. exact timeout_fires_full_refuted. Qed.
